@@ -143,5 +143,5 @@ def cleanup():
     from travsim.run import scratch_root
     root = scratch_root()
     for name in os.listdir(root):
-        if name.startswith(f"travsim-suite-{os.getuid()}-{run_id()}-"):
+        if name.startswith(f"travsim-suite-{os.getuid()}-{run_id()}-") or name.startswith(f"travsim-logs-{run_id()}-"):
             shutil.rmtree(os.path.join(root, name), ignore_errors=True)
